@@ -313,7 +313,7 @@ def rules(ck, P):
         sts = ir.stmts_of(ir.fn_block(b))
         magic = None
         for i, s in enumerate(sts):
-            if ir.contains(s, lambda y: y.get("k") == "lit" and y.get("lk") == "bytes" and y.get("v") == "504d54696c6573") and ir.contains(s, lambda y: y.get("k") == "ret"):
+            if any(y.get("k") == "lit" and y.get("lk") == "bytes" and y.get("v") == "504d54696c6573" for y in ir.walk_with_consts(s)) and ir.contains(s, lambda y: y.get("k") == "ret"):
                 magic = i
         lenck = next((i for i, s in enumerate(sts) if ir.contains(s, lambda y: y.get("k") == "bin" and ir.place_str(y["l"]).endswith("len()") and ir.const_eval(y["r"], {}) == 127) and ir.contains(s, lambda y: y.get("k") == "ret")), None)
         okret = [i for i, s in enumerate(sts) if ir.contains(s, lambda y: y.get("k") == "call" and (y.get("q") or "").endswith("Result::Ok::{Ctor#0}"))]
